@@ -190,13 +190,46 @@ def main(tier, seed, only=None):
         sets[name] = {"blocks": len(units), "configs": len(cs)}
         tasks = [(cfg, ch) for cfg in cs for ch in pool.chunks(units, max(100, len(units) // 32 + 1))]
         pool.run_tasks(tasks, work, setup=driver.setup_ctx, unit_timeout=60, on_result=on_result)
+    # ---- external-checker adapter: rendering of every block against an independent rendering; real binary on a slice
+    fv = {"blocks": 0, "binary": 0, "true": 0, "disagree": 0}
+    if not only or only == "forves":
+        fblocks = list(B.tree(B.MIXED + [B.P(0xFFFFFFFFFFFFFFFFFFFFFF), B.I("PUSH data", "a1"), B.I("PUSHIMMUTABLE", "a1"),
+                                         B.I("PUSHSIZE"), B.I("LOG1"), B.I("SLOAD")], 3 if tier == "quick" else 4))
+        fblocks = [b for b in fblocks if not any(op in ("JUMPI", "RETURN") for op, _ in b[:-1])]
+
+        def on_f(cfg, unit, status, value):
+            chk.add("evaluations")
+            if status != "ok":
+                tot["budget"] += 1
+                return
+            fv["blocks"] += 1
+            fv["binary"] += value["binary_calls"]
+            fv["true"] += value["true"]
+            fv["disagree"] += value["disagree"]
+            if value["viol"]:
+                v = value["viol"]
+                nsplit = sum(1 for op, _ in unit[0] if op in FORVES_SPLIT)
+                chk.violation("forves-rendering;segments=%s" % ("1" if nsplit == 0 else "several"), v)
+            for d in value.get("disagreements", [])[:3]:
+                chk.cov.setdefault("forves_vs_reference_disagreements", []).append(d)
+
+        units = [(b, i % 40 == 0) for i, b in enumerate(fblocks)]
+        tasks = [(("-greedy",), ch) for ch in pool.chunks(units, max(100, len(units) // 16 + 1))]
+        pool.run_tasks(tasks, work_forves, setup=driver.setup_ctx, unit_timeout=120, on_result=on_f)
+        chk.cov.update({"forves_blocks_rendered": fv["blocks"], "forves_binary_calls": fv["binary"],
+                        "forves_true_answers": fv["true"], "forves_disagrees_with_reference": fv["disagree"]})
     chk.cov.update({"sets": sets, "blocks": tot["blocks"], "mutant_pairs": tot["pairs"],
                     "distinguishable_pairs": tot["distinguishable"], "rejected_by_checker": tot["rejected"],
                     "checker_raised_on_pair": tot["raised"], "accepted_distinguishable": tot["accepted_equal"],
                     "skipped_budget": tot["budget"], "distinct_nontrivial": tot["distinguishable"]})
     if not chk.cov["samples"]:
         chk.sample({"note": "see sets"})
-    return chk.finish(guards={"distinguishable_pairs": tot["distinguishable"], "rejected": tot["rejected"]})
+    guards = {}
+    if not only or only != "forves":
+        guards = {"distinguishable_pairs": tot["distinguishable"], "rejected": tot["rejected"]}
+    if not only or only == "forves":
+        guards["forves_blocks_rendered"] = fv["blocks"]
+    return chk.finish(guards=guards)
 
 
 def replay(path):
@@ -229,3 +262,119 @@ def replay(path):
         return 1
     print("no violation on replay")
     return 0
+
+
+# ---------------------------------------------------------------------------------------------- forves adapter
+
+FORVES_SPLIT = {"LOG0", "LOG1", "LOG2", "LOG3", "LOG4", "CALLDATACOPY", "CODECOPY", "EXTCODECOPY", "RETURNDATACOPY",
+                "CALL", "STATICCALL", "DELEGATECALL", "CREATE", "CREATE2", "ASSIGNIMMUTABLE", "GAS", "tag", "JUMPDEST",
+                "JUMP", "JUMPI", "STOP", "RETURN", "REVERT", "INVALID", "SELFDESTRUCT"}
+META_ID = {"PUSHDEPLOYADDRESS": 0, "PUSHSIZE": 1, "PUSHLIB": 2, "PUSHIMMUTABLE": 3, "PUSH data": 4, "PUSH [tag]": 5,
+           "PUSH [$]": 6, "PUSH #[$]": 7}
+
+
+def plain_of(block, push0=True):
+    """The tool's documented plain form (AsmBytecode.to_plain) of my block, written independently."""
+    out = []
+    for op, arg in block:
+        if op == "PUSH":
+            out.append("PUSH0" if (arg == 0 and push0) else "PUSH %x" % arg)
+        elif arg is None or "JUMP" in op:
+            out.append(op)
+        else:
+            out.append("%s %s" % (op, arg))
+    return " ".join(out)
+
+
+def forves_reference(block, stores_split=False):
+    """Expected input of the external checker for the pair (block, block): one '#'-record per maximal segment
+    between non-optimizable instructions, each segment rendered with sized PUSHn mnemonics and METAPUSH ids."""
+    segs = []
+    cur = []
+    split = set(FORVES_SPLIT)
+    if stores_split:
+        split |= {"MSTORE", "MSTORE8", "SSTORE"}
+    for op, arg in block:
+        if op in split:
+            if cur:
+                segs.append(cur)
+            cur = []
+            continue
+        if op == "PUSH":
+            n = max(1, (len("%x" % arg) + 1) // 2)
+            cur += ["PUSH%d" % n, "0x%x" % arg]
+        elif op in META_ID:
+            cur += ["METAPUSH", str(META_ID[op]), "0x%s" % (arg if arg is not None else "0")]
+        else:
+            cur.append(op)
+    if cur:
+        segs.append(cur)
+    recs = []
+    for s in segs:
+        t = " ".join(s)
+        recs.append("\n".join(["#", t, t, "500"]))
+    return "\n".join(recs)
+
+
+def work_forves(ctx, unit):
+    block, with_binary = unit
+    from verification import forves_verification as fv
+    out = {"viol": None, "binary_calls": 0, "true": 0, "disagree": 0}
+    txt = plain_of(block, ctx.push0)
+    # PUSHLIB operands are indexes in the plain form
+    libs = {}
+    blk = []
+    for op, arg in block:
+        if op == "PUSHLIB":
+            libs.setdefault(arg, len(libs))
+            blk.append((op, str(libs[arg])))
+        else:
+            blk.append((op, arg))
+    txt = plain_of(blk, ctx.push0)
+    want = forves_reference(blk)
+    with repo.quiet():
+        try:
+            got = fv.forves_format(txt, txt)
+        except (repo.UnitTimeout, MemoryError):
+            raise
+        except BaseException as e:
+            got = "raised: %s" % e
+    if got is None:
+        got = "<None: the adapter failed>"
+    if got.replace("0x0 ", "0x0 ") != want and _norm_fv(got) != _norm_fv(want):
+        out["viol"] = {"kind": "forves-rendering", "label": "rendering", "block": B.to_text(block), "other": B.to_text(block),
+                       "config": list(ctx.cfg), "got": got[:600], "want": want[:600]}
+        return out
+    if with_binary:
+        n = 0
+        for label, m in mutants(block):
+            if n >= 6:
+                break
+            if m == block or any(op in FORVES_SPLIT for op, _ in m) != any(op in FORVES_SPLIT for op, _ in block):
+                continue
+            try:
+                E.need_delta(m)
+            except E.BadInstr:
+                continue
+            d = distinguishable(block, m)
+            n += 1
+            with repo.quiet():
+                try:
+                    r = fv.compare_forves(txt, plain_of(m, ctx.push0), "gas", True)
+                except (repo.UnitTimeout, MemoryError):
+                    raise
+                except BaseException as e:
+                    r = "raised"
+            out["binary_calls"] += 1
+            if r == "true":
+                out["true"] += 1
+                if d is not None:
+                    # the rendering of this pair is faithful (checked above for the block itself), so this is a
+                    # disagreement between the external checker and my reference: counted, investigated by hand
+                    out["disagree"] += 1
+                    out.setdefault("disagreements", []).append([B.to_text(block), B.to_text(m)])
+    return out
+
+
+def _norm_fv(s):
+    return " ".join(s.lower().split())
